@@ -11,6 +11,8 @@ import CohdlVerif.Model.C03
                                                  with the target-level semantics `procStep`
   <prog> = (prog (objs (o id s|v nelem w d0 d1 ..) ..) (pushed id ..) (body <stmt>) (conc (ca <tg> <expr>) ..) (obs id ..) (pre id ..))
   (pre id ..) is a further element of <prog>: objects sampled before the clock edge (concurrent outputs)
+  the (conc ..) assignments may be listed in any order: `settle` evaluates them in a topological order of their
+  dependencies; answer `cyclic` when there is none (combinational loop) or an object has two concurrent drivers
   answer: per clock the `pre` objects, then the observed objects `v,v,..` (array elements joined by `/`), clocks joined by `;`
 -/
 namespace CohdlVerif.C03
@@ -66,7 +68,7 @@ structure Prog where
   objs : List ObjDecl
   pushed : List Nat
   body : Stmt
-  conc : List (Target × Expr)
+  conc : List CA       -- in ANY order (the model settles them in a topological order)
   obs : List Nat
   pre : List Nat    -- objects sampled after the inputs changed and the concurrent logic settled, BEFORE the clock edge
 
@@ -76,8 +78,10 @@ def objOf : Sexp → Option ObjDecl
       pure ⟨← id.asNat?, sp, ← n.asNat?, ← w.asNat?, ← ds.mapM Sexp.asNat?⟩
   | _ => none
 
-def concOf : Sexp → Option (Target × Expr)
-  | .list [.atom "ca", t, e] => do pure (← targetOf t, ← exprOf e)
+/-- concurrent assignment: the target element is a constant -/
+def concOf : Sexp → Option CA
+  | .list [.atom "ca", .list [.atom "tg", o, .list [.atom "c", k], lo, w], e] => do
+      pure ⟨← o.asNat?, ← k.asNat?, ← lo.asNat?, ← w.asNat?, ← exprOf e⟩
   | _ => none
 
 def progOf : Sexp → Option Prog
@@ -118,16 +122,17 @@ def pushDecls (p : Prog) : List PushDecl :=
 
 /-- one clock of the whole design: inputs change, concurrent logic settles, the sequential context is
     activated, concurrent logic settles again -/
-def clockStep (low : Bool) (p : Prog) (s : St) (ins : List (Nat × Nat)) : St × St :=
+def clockStep (low : Bool) (p : Prog) (s : St) (ins : List (Nat × Nat)) : Option (St × St) := do
   let i : Loc → Option Bool := fun l =>
     match ins.find? (fun x => x.1 == l.1) with
     | some x => if l.2.1 == 0 then some (x.2.testBit l.2.2) else none
     | none => none
-  let s1 := concStep p.conc (setInputs i s)
+  let s1 ← settle p.conc (setInputs i s)
   let noIn : Loc → Option Bool := fun _ => none
   let s2 := if low then procStep (pushDecls p) (lowerSeq p.body) s1 noIn
             else Seq.activate (pushDflt (pushDecls p)) p.body s1 noIn
-  (s1, freeze p.objs (concStep p.conc s2))
+  let s3 ← settle p.conc s2
+  pure (s1, freeze p.objs s3)
 
 def showObj (p : Prog) (s : St) (id : Nat) : String :=
   match p.objs.find? (fun o => o.id == id) with
@@ -150,7 +155,7 @@ def runProg (low : Bool) (p : Prog) (clocks : List (List (Nat × Nat))) : String
                       pend := fun _ => none, tmp := fun _ => 0 }
   let mut out : Array String := #[]
   for c in clocks do
-    let r := clockStep low p s c
+    let some r := clockStep low p s c | return "cyclic"
     s := r.2
     out := out.push (",".intercalate (p.pre.map (showObj p r.1) ++ p.obs.map (showObj p s)))
   return ";".intercalate out.toList
